@@ -2043,3 +2043,15 @@ Proof.
   destruct (f_ignore f); [exact HN|]. constructor; [|exact HN].
   intros H. apply in_map_iff in H as [x [E _]]. discriminate.
 Qed.
+
+(** ... in declaration order (strictly increasing) *)
+From Coq Require Sorted.
+Lemma enabled_indexes_sorted_from : forall fs i, Sorted.StronglySorted lt (enabled_fields_indexes_from i fs).
+Proof.
+  induction fs as [|f r IH]; intros i; cbn [enabled_fields_indexes_from]; [constructor|].
+  destruct (f_ignore f); [apply IH|]. constructor; [apply IH|].
+  apply Forall_forall. intros x Hx. apply enabled_indexes_ge in Hx. lia.
+Qed.
+
+Lemma enabled_indexes_sorted : forall fs, Sorted.StronglySorted lt (enabled_fields_indexes fs).
+Proof. intros fs. apply enabled_indexes_sorted_from. Qed.
